@@ -10,26 +10,7 @@ from .common import *
 PID = 'C01'
 
 
-def process_failed(jr, e, res, extract):
-    for o, m, r in res.failed:
-        if r == 'unknown':
-            jr.status = 'inconclusive'; jr.reason = 'solver returned unknown for: ' + o.msg; continue
-        if o.kind == 'unwind':
-            jr.status = 'inconclusive'; jr.reason = 'bound too small: ' + o.msg; continue
-        case = extract(m, o)
-        case['what'] = o.msg; case['where'] = o.where; case['obligation_kind'] = o.kind
-        jr.violations.append(case)
-        if jr.status == 'pass': jr.status = 'violation'
-
-
-def witness(jr, e, name, formula, extract, optional=False):
-    r, m = solve.check_sat(e, formula)
-    if r == z3.sat:
-        jr.witnesses.append({name: extract(m)})
-    elif optional:
-        jr.notes.append('optional witness %s: %s' % (name, r))
-    else:
-        jr.status = 'inconclusive'; jr.reason = 'vacuity witness %s is %s' % (name, r)
+from mirsym.harness import process_failed, witness, discharge_known
 
 
 # ---------------------------------------------------------------------- harness A: whole line
